@@ -334,24 +334,84 @@ fn garbage(kind: usize, wl: usize, kindspec: Kind, q: u16) -> Vec<u8> {
     }
 }
 
+/// Queues on which the driver posts buffers for the device to fill whenever it likes.
+fn is_rx(kind: Kind, q: u16) -> bool {
+    match kind {
+        Kind::Console | Kind::NetRaw | Kind::NetBuf | Kind::Input => q == 0,
+        Kind::Socket => q == 0 || q == 2,
+        Kind::Sound => q == 1 || q == 3,
+        _ => false,
+    }
+}
+
+/// What a well-behaved device would answer (success, plausible contents): the default from which
+/// the adversary deviates. Without it a driver whose success value is not all zeros (sound, GPU,
+/// 9P) would fail its very first request and the rest of its script would exercise nothing.
+fn honest(kind: Kind, q: u16, req: &[u8], wl: usize) -> Vec<u8> {
+    let u32at = |o: usize| if req.len() >= o + 4 { u32::from_le_bytes(req[o..o + 4].try_into().unwrap()) } else { 0 };
+    let mut v = vec![0u8; wl];
+    match (kind, q) {
+        (Kind::Sound, 0) | (Kind::Sound, 2) if wl >= 4 => {
+            v[0..4].copy_from_slice(&0x8000u32.to_le_bytes());
+        }
+        (Kind::Gpu, 0) if wl >= 24 => {
+            let ty: u32 = match u32at(0) {
+                0x100 => 0x1101,
+                0x10a => 0x1104,
+                _ => 0x1100,
+            };
+            v[0..4].copy_from_slice(&ty.to_le_bytes());
+            if ty == 0x1101 && wl >= 24 + 24 {
+                // First scanout: 8 x 4 pixels, enabled.
+                v[32..36].copy_from_slice(&8u32.to_le_bytes());
+                v[36..40].copy_from_slice(&4u32.to_le_bytes());
+                v[40..44].copy_from_slice(&1u32.to_le_bytes());
+            }
+            if ty == 0x1104 && wl >= 32 {
+                v[24..28].copy_from_slice(&128u32.to_le_bytes());
+            }
+        }
+        (Kind::P9, 0) if wl >= 7 => {
+            // A minimal 9P reply: size[4] type[1] tag[2].
+            v.truncate(7);
+            v[0..4].copy_from_slice(&7u32.to_le_bytes());
+            v[4] = req.get(4).copied().unwrap_or(0).wrapping_add(1);
+            v[5] = req.get(5).copied().unwrap_or(0);
+            v[6] = req.get(6).copied().unwrap_or(0);
+        }
+        _ => {}
+    }
+    v
+}
+
 fn adversary(kind: Kind, dev: &DevRc) -> CoRc {
     let co = CoDevice::new(
         dev.clone(),
-        Box::new(move |q, chain, _req| {
-            let hold = match kind {
-                Kind::Console | Kind::NetRaw | Kind::NetBuf | Kind::Input => q == 0,
-                Kind::Socket => q == 0 || q == 2,
-                Kind::Sound => q == 1 || q == 3,
-                _ => false,
-            };
-            if hold {
+        Box::new(move |q, chain, req| {
+            if is_rx(kind, q) {
+                return Action::Hold;
+            }
+            // A request may be served late: only while the driver busy-waits, after later
+            // requests were queued. Requests that arrive while an earlier one is still waiting
+            // queue up behind it (a busy device serving in order) unless the device picks them
+            // first - completion out of order is legal for a virtio device.
+            let backlog = BACKLOG.with(|b| b.borrow().iter().any(|x| *x == q));
+            if backlog {
+                if deviate(2, "request served before the ones waiting (default: queued behind them)") == 0 {
+                    return Action::Hold;
+                }
+                OUT_OF_ORDER.with(|o| o.set(true));
+                tag("adv:request-served-out-of-order");
+            } else if deviate(2, "request served late (default: when notified)") == 1 {
+                tag("adv:request-served-late");
+                BACKLOG.with(|b| b.borrow_mut().push(q));
                 return Action::Hold;
             }
             let wl = chain.writable_len();
-            let g = deviate(4, "response bytes (default: zeros)");
-            let data = garbage(g, wl, kind, q);
+            let g = deviate(5, "response bytes (default: an honest success)");
+            let data = if g == 0 { honest(kind, q, req, wl) } else { garbage(g - 1, wl, kind, q) };
             let len = match deviate(4, "used length (default: bytes written)") {
-                0 => wl as u32,
+                0 => data.len() as u32,
                 1 => 0,
                 2 => wl as u32 + 1,
                 _ => u32::MAX,
@@ -365,6 +425,54 @@ fn adversary(kind: Kind, dev: &DevRc) -> CoRc {
 
 thread_local! {
     static UNATTRIBUTABLE: std::cell::Cell<bool> = const { std::cell::Cell::new(false) };
+    /// Request queues on which the device currently holds back requests it was notified of.
+    static BACKLOG: RefCell<Vec<u16>> = const { RefCell::new(vec![]) };
+    static OUT_OF_ORDER: std::cell::Cell<bool> = const { std::cell::Cell::new(false) };
+    /// Buffers lent to a *blocking* driver call for its duration only.
+    static BORROWED: RefCell<Vec<(usize, usize)>> = const { RefCell::new(vec![]) };
+}
+
+/// Registers a buffer which the next (blocking) call borrows only until it returns.
+fn lend(b: &[u8]) {
+    BORROWED.with(|v| v.borrow_mut().push((b.as_ptr() as usize, b.len())));
+}
+
+/// After a driver call has returned (normally or with an error) the device must not be left with
+/// access to memory the caller gets back: stack frames that no longer exist and buffers that were
+/// only borrowed for the duration of a blocking call. Otherwise a later device write lands in
+/// memory that has been reused (corrupting driver or caller state). Not judged once the device
+/// has named ids the driver cannot attribute: then the driver cannot know what is still in use.
+#[inline(never)]
+fn check_shares_after_return(name: &str, sp: usize, seq_before: u64) {
+    if UNATTRIBUTABLE.with(|u| u.get()) {
+        return;
+    }
+    // The kind names the call and whether the device had completed requests out of order.
+    let order = if OUT_OF_ORDER.with(|o| o.get()) { "out-of-order-completion" } else { "in-order-completion" };
+    for (va, len, dir, seq) in hal::dangling_stack_shares(sp) {
+        if seq <= seq_before {
+            continue;
+        }
+        viol(
+            &format!("share-outlives-stack-frame:{}:{}", name, order),
+            format!("{} returned while a {}-byte buffer at {:#x} in a stack frame that no longer exists is still shared with the device ({:?}): the request using it was left in the queue", name, len, va, dir),
+        );
+    }
+    let lent: Vec<(usize, usize)> = BORROWED.with(|b| b.borrow().clone());
+    for (lo, len) in lent {
+        if len == 0 {
+            continue;
+        }
+        for (va, l, dir, seq) in hal::with(|h| h.live_shares_in(lo, lo + len)) {
+            if seq <= seq_before {
+                continue;
+            }
+            viol(
+                &format!("share-outlives-borrow:{}:{}", name, order),
+                format!("{} (blocking) returned while {} bytes at {:#x} of the buffer it borrowed are still shared with the device ({:?})", name, l, va, dir),
+            );
+        }
+    }
 }
 
 /// Completes the oldest held chain of queue `q` (a posted receive buffer) as the adversary likes.
@@ -375,8 +483,8 @@ fn adversary_fill(co: &CoRc, kind: Kind, q: u16, honest: &[u8]) -> bool {
     }
     let chain = c.held.get(&q).unwrap()[0].clone();
     let wl = chain.writable_len();
-    let g = deviate(4, "received bytes (default: a plausible message)");
-    let mut data = if g == 0 { honest.to_vec() } else { garbage(g, wl, kind, q) };
+    let g = deviate(5, "received bytes (default: a plausible message)");
+    let mut data = if g == 0 { honest.to_vec() } else { garbage(g - 1, wl, kind, q) };
     data.truncate(wl);
     let len = match deviate(5, "used length of the receive buffer (default: bytes written)") {
         0 => data.len() as u32,
@@ -414,6 +522,9 @@ impl TransportVisitor for VB {
     fn visit<T: Transport + 'static>(self, t: T, w: &DWorld) {
         let kind = w.kind;
         UNATTRIBUTABLE.with(|u| u.set(false));
+        OUT_OF_ORDER.with(|u| u.set(false));
+        BACKLOG.with(|b| b.borrow_mut().clear());
+        BORROWED.with(|b| b.borrow_mut().clear());
         let co = adversary(kind, &w.dev);
         cosim::install(&co);
         // While the driver busy-waits for received data the adversary eventually delivers.
@@ -427,8 +538,24 @@ impl TransportVisitor for VB {
                     c.spins
                 };
                 if n % 3 == 0 {
-                    let q = if kind == Kind::Sound { 2 } else { 0 };
-                    adversary_fill(&co2, kind, q, &[0x41]);
+                    // A request held back earlier is served now (oldest first), else a posted
+                    // receive buffer is filled.
+                    let late = {
+                        let c = co2.borrow();
+                        c.held.iter().find(|(q, h)| !is_rx(kind, **q) && !h.is_empty()).map(|(q, h)| (*q, h[0].clone()))
+                    };
+                    match late {
+                        Some((q, chain)) => {
+                            let req = chain.read_all().unwrap_or_default();
+                            adversary_fill(&co2, kind, q, &honest(kind, q, &req, chain.writable_len()));
+                            if co2.borrow().held.get(&q).map(|h| h.is_empty()).unwrap_or(true) {
+                                BACKLOG.with(|b| b.borrow_mut().retain(|x| *x != q));
+                            }
+                        }
+                        None => {
+                            adversary_fill(&co2, kind, 0, &[0x41]);
+                        }
+                    }
                 }
                 if n > 60 {
                     co2.borrow_mut().livelock = Some(format!("busy-wait site {} did not end although the device answered honestly after its deviations", site));
@@ -456,6 +583,7 @@ impl TransportVisitor for VB {
         macro_rules! call {
             ($name:expr, $e:expr) => {{
                 co.borrow_mut().spins = 0;
+                let seq_before = hal::with(|h| h.seq);
                 let r = if dead && $name != "drop" { Err("skipped after an earlier panic".to_string()) } else { crate::util::catch(|| $e) };
                 if r.is_err() {
                     dead = true;
@@ -473,16 +601,23 @@ impl TransportVisitor for VB {
                     }
                 }
                 take_ledger_faults($name);
+                if r.is_ok() {
+                    check_shares_after_return($name, crate::hal::current_sp!(), seq_before);
+                }
+                BORROWED.with(|b| b.borrow_mut().clear());
                 r.ok()
             }};
         }
         match &mut d {
             AnyDriver::Blk(b) => {
                 let mut buf = vec![0u8; 512];
+                lend(&buf);
                 call!("read_blocks", b.read_blocks(0, &mut buf));
+                lend(&buf);
                 call!("write_blocks", b.write_blocks(1, &buf));
                 call!("flush", b.flush());
                 let mut id = [0u8; 20];
+                lend(&id);
                 call!("device_id", b.device_id(&mut id));
                 let mut req = virtio_drivers::device::blk::BlkReq::default();
                 let mut resp = virtio_drivers::device::blk::BlkResp::default();
@@ -534,7 +669,9 @@ impl TransportVisitor for VB {
                 call!("query_config_select", i.query_config_select(virtio_drivers::device::input::InputConfigSelect::IdName, 0, &mut out));
             }
             AnyDriver::NetRaw(n) => {
-                call!("send", n.send(&[1, 2, 3]));
+                let frame3 = vec![1u8, 2, 3];
+                lend(&frame3);
+                call!("send", n.send(&frame3));
                 let mut buf = vec![0u8; 2048];
                 let tok = call!("receive_begin", unsafe { n.receive_begin(&mut buf) });
                 let mut frame = vec![0u8; 12];
@@ -589,6 +726,7 @@ impl TransportVisitor for VB {
             }
             AnyDriver::Rng(r) => {
                 let mut dst = [0u8; 16];
+                lend(&dst);
                 call!("request_entropy", r.request_entropy(&mut dst));
             }
             AnyDriver::Rtc(r) => {
@@ -638,7 +776,10 @@ impl TransportVisitor for VB {
                 call!("rates_supported", s.rates_supported(0).map(|_| ()));
                 call!("pcm_set_params", s.pcm_set_params(0, 8, 4, PcmFeatures::empty(), 2, PcmFormat::S16, PcmRate::Rate44100));
                 call!("pcm_prepare", s.pcm_prepare(0));
-                call!("pcm_xfer", s.pcm_xfer(0, &[1, 2, 3, 4, 5]));
+                // Three periods (4, 4, 1 bytes) so that several transfers can be in flight.
+                let frames: Vec<u8> = (1..=9).collect();
+                lend(&frames);
+                call!("pcm_xfer", s.pcm_xfer(0, &frames));
                 let tok = call!("pcm_xfer_nb", s.pcm_xfer_nb(0, &[1, 2, 3, 4]));
                 if let Some(Ok(tok)) = tok {
                     call!("pcm_xfer_ok", s.pcm_xfer_ok(tok));
@@ -650,6 +791,7 @@ impl TransportVisitor for VB {
             }
             AnyDriver::P9(mut p) => {
                 let mut resp = [0u8; 32];
+                lend(&resp);
                 call!("request", p.request(&[7, 0, 0, 0, 100, 0, 0], &mut resp));
                 call!("drop", drop(p));
             }
